@@ -287,4 +287,3 @@ func InputCoord(p *core.Prog, r *core.Report, cmds []string) {
 		}
 	}
 }
-
